@@ -49,4 +49,62 @@ def keptOK (bounds : List Int) (nKept : Nat) (flat : List Int) : Bool :=
 /-- grids in scope: at least two bounds, strictly increasing -/
 def GridOK (bounds : List Int) : Prop := 2 ≤ bounds.length ∧ bounds.Pairwise (· < ·)
 
+/-! ### The statement's own reading of "kept chunks", independent of the stride formula of the code
+
+The property says: "the kept chunks are whole intervals of the supplied chunk grid taken at a regular stride
+starting with the first, never more than the requested number". It does not say WHICH stride. `keptOKAny`
+accepts every regular stride; `SpecOKIn` states the selection constraints relative to a given list of kept
+intervals (so that an implementation choosing another admissible stride is not rejected). -/
+
+/-- grid intervals `0, s, 2s, …` for an arbitrary stride `s` -/
+def keptIntervalsAt (bounds : List Int) (s : Nat) : List (Int × Int) :=
+  let nChunks := bounds.length - 1
+  ((List.range nChunks).filter fun i => i % s == 0).map fun i => (bounds.getD i 0, bounds.getD (i + 1) 0)
+
+def flatOf (ivs : List (Int × Int)) : List Int := ivs.flatMap fun iv => [iv.1, iv.2]
+
+/-- `flat` is the flattened list of the grid intervals at SOME regular stride `s ≥ 1` starting with the first,
+at most `nKept` of them -/
+def keptOKAny (bounds : List Int) (nKept : Nat) (flat : List Int) : Bool :=
+  (List.range bounds.length).any fun s0 =>
+    flat == flatOf (keptIntervalsAt bounds (s0 + 1)) &&
+    decide ((keptIntervalsAt bounds (s0 + 1)).length ≤ nKept)
+
+/-- a flattened list `[a0, b0, a1, b1, …]` read back as intervals -/
+def pairsOf : List Int → List (Int × Int)
+  | a :: b :: t => (a, b) :: pairsOf t
+  | _ => []
+
+def inIvs (ivs : List (Int × Int)) (t : Int) : Bool :=
+  ivs.any fun iv => decide (iv.1 ≤ t) && decide (t < iv.2)
+
+/-- eligibility relative to a given list of kept intervals -/
+def eligibleSpecIn (ivs : List (Int × Int)) (x : Inp) (c : Nat) : List Nat :=
+  (List.range x.clusters.length).filter fun i =>
+    x.clusters.getD i 0 == c &&
+    (!x.subsetChunks || inIvs ivs (x.times.getD i 0)) &&
+    (match x.subset with | none => true | some s => s.contains i)
+
+/-- the selection constraints of C17 relative to a given list of kept intervals -/
+def SpecOKIn (ivs : List (Int × Int)) (x : Inp) (out : List Nat) : Bool :=
+  strictIncN out &&
+  out.all (fun i => decide (i < x.clusters.length) && x.req.contains (x.clusters.getD i 0)) &&
+  x.req.all (fun c =>
+    let e := eligibleSpecIn ivs x c
+    let got := out.filter fun i => x.clusters.getD i 0 == c
+    match x.count with
+    | some n =>
+      if n > 0 ∧ (e.length : Int) > n then
+        decide ((got.length : Int) = n) && got.all (e.contains ·)
+      else got == e
+    | none => got == e)
+
+/-- the inputs the real selector accepts: a grid of ≥ 2 strictly increasing bounds, at least one chunk to keep
+(`n_chunks_kept = 0` makes the constructor raise ZeroDivisionError), one time per spike (a spike without a
+time makes `spike_times[spike_ids]` raise IndexError) -/
+structure Dom (x : Inp) : Prop where
+  grid : GridOK x.bounds
+  kept : 1 ≤ x.nKept
+  times : x.times.length = x.clusters.length
+
 end PhyVerif.C17
